@@ -3,7 +3,7 @@
    frame       = ( kind pts dts payload )
    label       = ( 0 ) writer | ( 1 id seq ) lookup | ( 2 id ) copy
    observation = ( results blocked )
-   result      = ( ) still between lookup and copy | ( ( 0 ) ) not found | ( ( 1 segobs ) ) bytes | ( ( 2 ) ) panic | ( ( 3 ) ) error
+   result      = ( ) still between lookup and copy | ( ( 0 ) ) not found | ( ( 1 segobs ) ) bytes | ( ( 2 ) ) panic | ( ( 3 ) ) error | ( ( 4 ) ) partial
    blocked     = ( 0|1 ... )  the writer waits for the write lock, after every label *)
 From Coq Require Import ZArith List Bool.
 From V Require Import Val Bytes C10Hls C10HlsLts RunC10.
@@ -26,14 +26,16 @@ Definition enc_fres (x : fres) : val :=
   | FBytes fs => VL [VI 1; enc_segobs (obs_of_frames fs)]
   | FPanic => VL [VI 2]
   | FErr => VL [VI 3]
+  | FPartial => VL [VI 4]
   end.
 (* a segment that is not a well-formed, size-consistent, re-muxable TS is not "the bytes of the frames" *)
 Definition dec_fres (v : val) : fres :=
   match as_int (nthv 0 v) with
   | 0 => FNotFound
-  | 1 => let g := dec_segobs (nthv 1 v) in if g_ok g then FBytes (g_frames g) else FErr
+  | 1 => let g := dec_segobs (nthv 1 v) in if g_ok g then FBytes (g_frames g) else FPartial
   | 2 => FPanic
-  | _ => FErr
+  | 3 => FErr
+  | _ => FPartial
   end.
 
 Definition lcase_cfg (c : val) : cfg := dec_cfg (nthv 0 c).
@@ -50,6 +52,11 @@ Definition x_C10_lts_run (c : val) : val :=
 (* the variant with lookup and copy in separate critical sections (what a narrowed lock would do) *)
 Definition x_C10_lts_unlocked (c : val) : val :=
   enc_lobs (lts_model false (lcase_cfg c) (lcase_frames c) (lcase_sched c)).
+
+(* the variant that closes the store after the listing *)
+Definition x_C10_lts_late (c : val) : val :=
+  let l := lrun_gen true true (lcase_cfg c) (linit (lcase_cfg c) (lcase_frames c)) (lcase_sched c) in
+  vlist (vopt enc_fres) (map fr_res (l_recs l)).
 
 (* the oracle of C10_lts_model_passes / C10_fetch_stable_under_rollover on (case, observed) *)
 Definition x_C10_lts_ok (v : val) : val :=
